@@ -8,7 +8,7 @@ CONSTANTS
   AllowExcl = TRUE
   AllowCat3 = FALSE
   AllowReuse = FALSE
-  Extras = TRUE
+  Extras = "yes"
   AllowFindings = FALSE
   MAllowFindings = FALSE
   Conv1dExport = "pinned"
